@@ -880,7 +880,14 @@ func (e *Engine) assertAtCall(st *State, key string, call *ast.CallExpr) error {
 		if j < 0 || strings.TrimSpace(a[:j]) != key {
 			continue
 		}
-		x, err := spec.Parse(strings.TrimSpace(a[j+1:]))
+		text := strings.TrimSpace(a[j+1:])
+		label := fmt.Sprintf("#%d", i+1)
+		if strings.HasPrefix(text, "[") {
+			if k := strings.Index(text, "]"); k > 0 {
+				label, text = ":"+text[1:k], strings.TrimSpace(text[k+1:])
+			}
+		}
+		x, err := spec.Parse(text)
 		if err != nil {
 			return fmt.Errorf("%s: assert-at-call of %s: %v", e.curCon.File, e.curCon.Key, err)
 		}
@@ -889,7 +896,7 @@ func (e *Engine) assertAtCall(st *State, key string, call *ast.CallExpr) error {
 		if err != nil {
 			return fmt.Errorf("%s: assert-at-call of %s: %v", e.curCon.File, e.curCon.Key, err)
 		}
-		e.oblige(st, "assert", fmt.Sprintf("at-call(%s)#%d", key, i+1), call.Pos(), v.T)
+		e.oblige(st, "assert", fmt.Sprintf("at-call(%s)%s", key, label), call.Pos(), v.T)
 	}
 	return nil
 }
@@ -1134,6 +1141,20 @@ func (e *Engine) noteCallFields(call *ast.CallExpr) {
 func (e *Engine) assertAfterCall(st *State, key string, call *ast.CallExpr, outs []Val) error {
 	if e.curCon == nil {
 		return nil
+	}
+	// "ghost-after-call <callee key>: name = expr" ($ret<k>: the call's results)
+	for _, a := range e.curCon.Attrs["ghost-after-call"] {
+		j := strings.Index(a, ":")
+		if j < 0 || strings.TrimSpace(a[:j]) != key {
+			continue
+		}
+		bind := map[string]Val{}
+		for k, o := range outs {
+			bind[fmt.Sprintf("$ret%d", k)] = o
+		}
+		if err := e.ghostUpdate(st, strings.TrimSpace(a[j+1:]), call.End(), bind); err != nil {
+			return fmt.Errorf("%s: ghost-after-call of %s: %v", e.curCon.File, e.curCon.Key, err)
+		}
 	}
 	for i, a := range e.curCon.Attrs["assert-after-call"] {
 		j := strings.Index(a, ":")
